@@ -118,3 +118,38 @@ def replay(path):
     w = json.load(open(path))
     print(json.dumps(w, indent=1)[:4000])
     return 0
+
+
+def c_stage(chk, progs, rng, nctx=2, label='program'):
+    """bind the emitted C of `progs` (Prog objects, compiled with 'machine') to their machines: rebuild with C output and sweep
+    every state x every byte (+ end) from `nctx` data contexts.  Returns dict(states, transitions, sweeps, accepted)."""
+    import shutil
+    built = runner.compile_programs([(p.name, p.src, p.args) for p in progs])
+    root = runner.scratch_dir()
+    out = {'states': 0, 'transitions': 0, 'sweeps': 0, 'accepted': 0, 'binaries': 0}
+    try:
+        runner.build_programs(built, root)
+        for p in built:
+            if p.ok and not p.bin:
+                chk.violation('emitted C does not build for %s %s: %s' % (p.name, p.args, p.buildlog[-300:]),
+                              {'program': p.name, 'args': p.args, 'source': p.src, 'log': p.buildlog[-2000:]})
+        out['binaries'] = len([p for p in built if p.bin])
+        swcases, nsweeps, dropped = sweeps_for(chk, built, rng, nctx, max(1, nctx - 1), root)
+        swres, swst = runner.validate_sweeps(swcases, workers=4, parallel=4)
+        for c, (v, reps) in zip(swcases, swres):
+            if v == 'ACCEPT':
+                out['accepted'] += 1
+            elif v == 'REJECT':
+                r = [x for x in reps if x['kind'] == 'REJECT'][0]
+                chk.violation('emitted C of the %s differs from the compiled machine (%s) in state %s on symbol %s for %s %s'
+                              % (label, r['clause'], r['q'], r['sym'], c['p'].name, c['p'].args),
+                              {'program': c['p'].name, 'source': c['p'].src, 'args': c['p'].args, 'state': r['q'], 'symbol': r['sym'],
+                               'context': r['pre'], 'spec': r['spec'], 'impl': r['impl']})
+            else:
+                chk.machinery_error('no verdict for sweeps of %s' % (c['key'],))
+        for e in swst['errors']:
+            chk.machinery_error('TLC(StepTrace): ' + str(e)[:1500])
+        out.update(states=swst['states'], transitions=swst['transitions'], sweeps=nsweeps)
+    finally:
+        shutil.rmtree(root, ignore_errors=True)
+    return out
